@@ -148,7 +148,9 @@ Theorem C12_shape_rules_multi : forall n d m,
   out_shape (deriv_table DGradient) n d (Some m) = [n; m; d]
   /\ sprod (raw_shape (deriv_table DGradient) n d (Some m)) = sprod [n; m; d]
   /\ out_shape (deriv_table DHessian) n d (Some m) = [n; m; d; d]
-  /\ sprod (raw_shape (deriv_table DHessian) n d (Some m)) = sprod [n; m; d; d].
+  /\ sprod (raw_shape (deriv_table DHessian) n d (Some m)) = sprod [n; m; d; d]
+  /\ out_shape (deriv_table DHessLogDet) n d (Some m) = [n; m]
+  /\ sprod (tl (raw_shape (deriv_table DHessLogDet) n d (Some m))) = sprod [m; d; d].
 Proof. exact shape_rules_multi. Qed.
 Print Assumptions C12_shape_rules_multi.
 
